@@ -152,7 +152,7 @@ def _inside_like(x):
 
 
 def run(P, R, tier):
-    n, rets = dimrun.route(P, R, ["iv.e_step", "iv.m_step", "iv.project", "iv.fit"], rules=["DIM."], where_prefix=[IV])
+    n, rets = dimrun.route(P, R, ["iv.e_step", "iv.m_step", "iv.project", "iv.fit"], rules=["DIM.", "EXT."], where_prefix=[IV])
     R.floor("DIM obligations (i-vector)", n, 15)
     check_fnorm(P, R)
     check_precision(P, R)
